@@ -30,6 +30,9 @@ func main() {
 	case "replay":
 		os.Exit(engines.Replay(os.Args[2:]))
 	}
+	if f, ok := engines.Debug[os.Args[1]]; ok {
+		os.Exit(f(os.Args[2:]))
+	}
 	id := os.Args[1]
 	tier := "quick"
 	if len(os.Args) > 2 {
